@@ -160,7 +160,8 @@ def scenarios(tier, seed):
               StoreValues(kind="integer", dtype="float64", pattern="sn"),
               StoreValues(kind="integer", dtype="float64", pattern="+"),
               StoreValues(kind="boolean", dtype="int64", pattern="ss"),
-              StoreValues(kind="boolean", dtype="bool", pattern="ss")]
+              StoreValues(kind="boolean", dtype="bool", pattern="ss"),
+              StoreValues(kind="boolean", dtype="float64", pattern="ss")]
     else:
         for dt in ("float64", "float32"):
             for pat in ("sns", "+s-", "nnn", "sss", "s"):
